@@ -33,6 +33,10 @@ def gen_case(rng):
                          integrate_path=rng.random() < 0.25, integrate_t=rng.random() < 0.25, smear=rng.random() < 0.3),
              repeat=rng.choice([1, 1, 2, 5]), t_slew=rng.choice([0.0, 10.0, 123.5]))
     c["t_overwrite"] = rng.random() < 0.35
+    if rng.random() < 0.3:
+        c["pre"] = rng.choice(["tail", "each"])      # the frames were injected into before, under other offsets
+        if rng.random() < 0.6:
+            c["signal"]["integrate_path"] = True; c["signal"]["integrate_t"] = rng.random() < 0.7
     if n >= 2 and rng.random() < 0.2:
         # the cadence's reference is its FIRST frame, whatever the chronological order: frames listed out of time order
         rng.shuffle(frames)
@@ -56,7 +60,7 @@ def run(ctx):
     quick = ctx.tier == "quick"
     ctx.rule = ("cadences of 1-6 frames of 1-4 rows with gaps, integer and realistic unix start times, in and out of chronological order, both orientations, whole cadence / slice (also reversed) / "
                 "label subset; constant or sine time profile, drifting box signal, integrate_path / integrate_t / smearing; 1, 2 or 5 repeated "
-                "injections; a callback raising on the k-th frame for every k; overwrite_times, slew_times, consolidate; "
+                "injections, also after earlier injections into the same frames alone or through the cadence's tail; a callback raising on the k-th frame for every k; overwrite_times, slew_times, consolidate; "
                 "non-trivial = at least two frames; distinct = distinct case")
     ctx.assumptions = ["time axes are compared bit for bit (np.array_equal) before/after", "slew times of realistic unix start times are compared to 1e-6 s"]
     cases = corpus() + [gen_case(rng) for _ in range(120 if quick else 2500)]
@@ -76,7 +80,7 @@ def run(ctx):
         ctx.count(c, nontrivial=len(c["frames"]) >= 2)
         ctx.tally("frames", len(c["frames"])); ctx.tally("times", "unix" if c["realistic"] else "integer"); ctx.tally("repeat", c["repeat"])
         ctx.tally("subset", "slice" if c.get("slice") else ("index" if c.get("index") else ("label" if c.get("label") else "all")))
-        ctx.tally("t_overwrite", bool(c.get("t_overwrite"))); ctx.tally("chronological", not (c.get("unordered") or (c.get("slice") or [0])[-1] == -1))
+        ctx.tally("t_overwrite", bool(c.get("t_overwrite"))); ctx.tally("earlier_injection", c.get("pre") or "none"); ctx.tally("chronological", not (c.get("unordered") or (c.get("slice") or [0])[-1] == -1))
         for key, msg in r["fails"]:
             ctx.impl_violation(key, msg, c)
         if mv is not None:
